@@ -243,11 +243,19 @@ func pathName(root types.Type, path []int) string {
 type Heap struct {
 	m     map[string]string // heap array name -> current term
 	alloc string
+	formal *formalHeap // non-nil: a heap made of formal array parameters (spec function bodies) or of separately declared symbols (lemma proofs)
 	dirty map[string]int // written since the enclosing loop cut: minimum allocation serial of the written base refs (0 = pre-existing memory)
 }
 
+type formalHeap struct {
+	prefix  string
+	declare bool
+	used    map[string]string
+	order   []string
+}
+
 func (h *Heap) clone() *Heap {
-	n := &Heap{m: make(map[string]string, len(h.m)), alloc: h.alloc, dirty: make(map[string]int, len(h.dirty))}
+	n := &Heap{m: make(map[string]string, len(h.m)), alloc: h.alloc, dirty: make(map[string]int, len(h.dirty)), formal: h.formal}
 	for k, v := range h.m {
 		n.m[k] = v
 	}
